@@ -198,3 +198,12 @@ Theorem C01_source_effects :
   (forall q e k refs i, peq (src_handle_cache_hit q e k refs i) (handle_cache_hit q e k refs i)).
 Proof. exact tie_handle_cache_hit. Qed.
 Print Assumptions C01_source_effects.
+
+(* ... and StoreResponse (hop-by-hop fields removed first, the variant key, the entry written before the index, the index
+   entry appended or replaced), serveFromCache and handleStaleWhileRevalidate (qualified no-cache fields removed, Age, status,
+   the background revalidation started with the stored validators) *)
+Theorem C01_source_effects2 :
+  (forall e f now ql, peq (src_serve_from_cache e f now ql) (Ret (serve_from_cache e f now ql))) /\
+  (forall q e k f cc now ql, peq (src_handle_stale_while_revalidate q e k f cc now ql) (handle_stale_while_revalidate q e k f cc now ql)).
+Proof. repeat split; [exact tie_serve_from_cache|exact tie_handle_stale_while_revalidate]. Qed.
+Print Assumptions C01_source_effects2.
